@@ -140,6 +140,7 @@ func verifTask(name string, notification bool) {}
 func verifSched(explore bool)                     {}
 func verifMapOrder(explore bool)                  {}
 func verifLockBusy(busy bool)                     {}
+func verifOnLock(f func())                        {}
 `
 
 type replayCase struct {
